@@ -44,6 +44,10 @@ type TaskSpec struct {
 	// what a ledger does when resolving one account involves executing another script.
 	// "Re-entrant" taken literally: the inner run returns the solo result, and so does the outer.
 	Nested bool `json:"nested,omitempty"`
+	// PreCancel: this task's context is already cancelled when Run is called (the store, like
+	// most in-memory stores, does not look at it). Whatever Run makes of a cancelled context it
+	// must make of it every time.
+	PreCancel bool `json:"pre_cancelled_context,omitempty"`
 }
 
 type Case struct {
@@ -161,6 +165,9 @@ func (c Case) solo(text string, t TaskSpec, flags map[string]struct{}) exec.Outc
 	ctx, cancel := context.WithCancel(context.Background())
 	defer cancel()
 	st.Cancel = cancel
+	if t.PreCancel && len(t.Faults) == 0 {
+		cancel()
+	}
 	return exec.Run(ctx, p.PR, copyVars(t.Vars), st, flags)
 }
 
@@ -308,6 +315,8 @@ func Execute(c Case, keepTrace bool, ch chooser) (res Result) {
 		cancels = append(cancels, cancel)
 		if len(t.Faults) > 0 {
 			st.Cancel = cancel
+		} else if t.PreCancel {
+			cancel()
 		}
 		vars, flags := varsInst[t.VarsGroup], flagsInst[t.FlagsGroup]
 		if len(t.Faults) > 0 {
@@ -631,6 +640,15 @@ func genCase(r *rand.Rand) (Case, chooser) {
 					}
 				}
 				c.Tasks[i].Ledger = own
+			}
+		}
+	}
+	if r.IntN(12) == 0 {
+		i := r.IntN(len(c.Tasks))
+		if len(c.Tasks[i].Faults) == 0 {
+			c.Tasks[i].PreCancel = true
+			if c.Tasks[i].Reps < 2 {
+				c.Tasks[i].Reps = 2
 			}
 		}
 	}
